@@ -55,21 +55,44 @@ Inductive addr_choice := UsePeer | UseLog.
 (** One login attempt as handleLogin + newCookie treat it.  [a_now] is the
     instant read by [check], [a_now2] the instant read by [inc] after the
     password has been evaluated ([a_now <= a_now2]); [a_ok] says whether
-    [findUser] would accept the submitted name and password.  Attempts are
-    serialised: the route is wrapped by [ensure], which holds the global
+    [findUser] would accept the submitted name and password.  [a_addr] is the
+    TCP peer ([netutil.SplitHost(r.RemoteAddr)], the code's [remoteIP]);
+    [a_hdr] is the address [realIP] takes from a proxy header
+    (CF-Connecting-IP, True-Client-IP, X-Real-IP, leftmost X-Forwarded-For;
+    [None]: no usable header, [realIP] falls back to the peer); [a_trusted]
+    says whether [trustedProxies.Contains] accepts that address.  The sender
+    of a request chooses [a_hdr] (and with it [a_trusted]) freely.  Attempts
+    are serialised: the route is wrapped by [ensure], which holds the global
     control lock for POST. *)
-Record att := { a_now : Z; a_now2 : Z; a_addr : bytes; a_ok : bool }.
+Record att := { a_now : Z; a_now2 : Z; a_addr : bytes; a_hdr : option bytes; a_trusted : bool; a_ok : bool }.
+
+(** The code's [logIP]. *)
+Definition log_addr (e : att) : bytes :=
+  match a_hdr e with
+  | Some h => if a_trusted e then h else a_addr e
+  | None => a_addr e
+  end.
+
+Definition pick (ch : addr_choice) (e : att) : bytes :=
+  match ch with UsePeer => a_addr e | UseLog => log_addr e end.
 
 Inductive login_out :=
   | L429 (lft : Z)    (* rejected, password not evaluated; Retry-After from [left] *)
   | L403              (* evaluated, wrong *)
   | L200.             (* evaluated, right: a session is created (Model/Session.v) *)
 
-Definition login (c : rl_conf) (e : att) (s : rl_state) : rl_state * login_out :=
-  let '(s1, lft) := rl_check c (a_now e) s (a_addr e) in
+(** handleLogin with its two choices explicit: [chk] is the address given to
+    [rateLimiter.check], [cnt] the one given to [newCookie] and so to
+    [inc] / [remove]. *)
+Definition login_with (chk cnt : addr_choice) (c : rl_conf) (e : att) (s : rl_state) : rl_state * login_out :=
+  let '(s1, lft) := rl_check c (a_now e) s (pick chk e) in
   if 0 <? lft then (s1, L429 lft)
-  else if a_ok e then (rl_remove s1 (a_addr e), L200)
-  else (rl_inc c (a_now2 e) s1 (a_addr e), L403).
+  else if a_ok e then (rl_remove s1 (pick cnt e), L200)
+  else (rl_inc c (a_now2 e) s1 (pick cnt e), L403).
+
+(** The code: both are [remoteIP] (authhttp.go handleLogin; tools/routes
+    re-reads this from the source, [Gen.AuthPins]). *)
+Definition login : rl_conf -> att -> rl_state -> rl_state * login_out := login_with UsePeer UsePeer.
 
 Fixpoint run_logins (c : rl_conf) (s : rl_state) (h : list att) : rl_state * list login_out :=
   match h with
@@ -77,6 +100,14 @@ Fixpoint run_logins (c : rl_conf) (s : rl_state) (h : list att) : rl_state * lis
   | e :: h' =>
       let '(s1, o) := login c e s in
       let '(s2, os) := run_logins c s1 h' in (s2, o :: os)
+  end.
+
+Fixpoint run_logins_with (chk cnt : addr_choice) (c : rl_conf) (s : rl_state) (h : list att) : rl_state * list login_out :=
+  match h with
+  | [] => (s, [])
+  | e :: h' =>
+      let '(s1, o) := login_with chk cnt c e s in
+      let '(s2, os) := run_logins_with chk cnt c s1 h' in (s2, o :: os)
   end.
 
 (** Whether the password of an attempt was evaluated. *)
